@@ -57,6 +57,7 @@ func runC11(c *Ctx) {
 
 	// ---- Equal is two-sided ----
 	c.L.Floor("C11.equal", 2)
+	c.L.Floor("C11.nil-result", 6)
 	for _, tn := range []string{"MapSet", "SortedSliceSet"} {
 		for _, f := range byType[tn] {
 			if f.Name() != "Equal" || len(f.Params) != 2 {
@@ -152,6 +153,37 @@ func runC11(c *Ctx) {
 		}
 		if derefs == 0 {
 			c.check(true, "C11.nil-receiver", f, "no receiver dereference", nil, "nothing to guard")
+		}
+		// what a nil receiver answers: the empty set / buffer (zero count, false, nil) —
+		// every result returned under `recv == nil` is the zero value, except for
+		// Equal (pointer identity, checked by C11.equal)
+		if f.Name() == "Equal" {
+			continue
+		}
+		for _, ret := range core.Returns(f) {
+			underNil := false
+			for _, g := range core.GuardsOf(ret) {
+				cond, truth := core.StripNot(g.Cond, g.Truth)
+				if b, ok := cond.(*ssa.BinOp); ok && b.X == ssa.Value(recv) && core.IsNilConst(b.Y) && ((b.Op == token.EQL && truth) || (b.Op == token.NEQ && !truth)) {
+					underNil = true
+				}
+			}
+			if !underNil {
+				continue
+			}
+			for _, r := range ret.Results {
+				zero := core.IsNilConst(r)
+				if k, isK := core.ConstInt(r); isK && k == 0 {
+					zero = true
+				}
+				if b, isK := core.ConstBool(r); isK && !b {
+					zero = true
+				}
+				if cst, isC := r.(*ssa.Const); isC && cst.Value == nil {
+					zero = true // zero value of a type parameter / struct
+				}
+				c.check(zero, "C11.nil-result", f, "a nil receiver answers with the zero value", ret, "a nil set / buffer behaves as an empty one: found "+core.Describe(r))
+			}
 		}
 	}
 
